@@ -15,7 +15,7 @@
     conforms to the declared argument types; when validation accepted the document, the
     observation equals the reference coercion (error <-> nothing called). *)
 From Coq Require Import List NArith ZArith Bool String.
-From ApiFu Require Import Base.Sexp Val.Values Val.CoerceModel Val.CoerceSpec.
+From ApiFu Require Import Base.Sexp Val.Values Val.CoerceModel Val.CoerceSpec Val.CoerceReasons.
 Import ListNotations.
 Open Scope string_scope.
 Open Scope list_scope.
@@ -355,12 +355,21 @@ Section Case.
               | Some _ =>
                   match ref_am with
                   | None =>
-                      (* no coercion exists: nothing may be called; a field answers with an error
-                         (a directive whose arguments do not coerce is ignored, as in CollectFields) *)
+                      (* no coercion exists: nothing may be called (neither the resolver / filter nor,
+                         for a directive, the field it guards) and the client gets an error *)
                       match o_calls o with
-                      | [] => if site_field && negb (match o_exec o with VReject => true | _ => false end)
-                              then Some (v_oracle_fail "no-error-although-no-coercion-exists" [])
-                              else None
+                      | [] => if negb (match o_exec o with VReject => true | _ => false end)
+                              then Some (v_oracle_fail (if site_field then "no-error-although-no-coercion-exists"
+                                                        else "directive-silently-ignored-although-no-coercion-exists") [])
+                              else if o_ran o then Some (v_oracle_fail "selection-ran-although-directive-does-not-coerce" [])
+                              else
+                                (* static_dynamic_agree, on the reference side: after validation a
+                                   coercion can only be missing for one of the run-time reasons *)
+                                match ref_vv with
+                                | Some v => if null_variable v args || absent_item_variable v args || refusing_hook E then None
+                                            else Some (v_oracle_fail "runtime-error-without-runtime-reason" [])
+                                | None => None
+                                end
                       | m :: _ => Some (v_oracle_fail differs_key [])
                       end
                   | Some m =>
@@ -393,7 +402,7 @@ Section Case.
     end.
 
   (** the model's prediction of the observation *)
-  Definition compare (st : bool) (vv : res cvars) (am : res (list (name * gval))) : option sexp :=
+  Definition compare (ran_of : list (name * gval) -> bool) (st : bool) (vv : res cvars) (am : res (list (name * gval))) : option sexp :=
     let exp_static := if st then VOk else VReject in
     let '(exp_exec, exp_calls, exp_ran) :=
       if negb st then (VNone, [], false)
@@ -402,8 +411,8 @@ Section Case.
            | Err => (VReject, [], false)
            | Ok _ =>
                match am with
-               | Ok m => (VOk, [m], negb site_field)
-               | Err => if site_field then (VReject, [], false) else (VOk, [], true)
+               | Ok m => (VOk, [m], ran_of m)
+               | Err => (VReject, [], false)     (* field: field error; directive: reported by collectFields, selection left out *)
                | Panic => (VPanic, [], false)
                end
            end in
@@ -418,27 +427,34 @@ Section Case.
     else None.
 
   (** evidence classes *)
-  Definition classes (st : bool) (vv : res cvars) (am : res (list (name * gval)))
+  Definition classes (builtin : bool) (st : bool) (vv : res cvars) (am : res (list (name * gval)))
              (ref : option (list (name * gval))) : list string :=
     let nested := existsb (fun a => match snd a with LVar _ => false | l => match lit_vars l with [] => false | _ => true end end) args in
     let top_var := existsb (fun a => match snd a with LVar _ => true | _ => false end) args in
     let has_default := existsb (fun ad => match in_default (snd ad) with Some _ => true | None => false end) argdefs in
     let var_default := existsb (fun d => match vd_default d with Some _ => true | None => false end) defs in
     (if site_field then ["site-field"] else ["site-directive"]) ++
+    (if builtin then ["site-skip-include"] else []) ++
     (if st then [] else ["static-reject"]) ++
     (if st then match vv with
                 | Ok v => match am with
                           | Ok _ => ["called"]
-                          | Err => ["argument-error"]
+                          | Err => ["argument-error"] ++
+                                   (if null_variable v args then ["reason-null-variable"] else []) ++
+                                   (if absent_item_variable v args then ["reason-absent-item-variable"] else []) ++
+                                   (if refusing_hook E then ["reason-hook-in-schema"] else [])
                           | Panic => ["panic"]
                           end
-                | Err => ["variable-error"]
+                | Err => ["variable-error"] ++
+                         (if bad_variable_value all_fixed E dt defs raw then ["reason-bad-variable-value"] else ["reason-hook-on-default"])
                 | Panic => ["panic"]
                 end else []) ++
     (if top_var then ["variable"] else []) ++ (if nested then ["variable-nested"] else []) ++
     (if negb has_vars then ["literal-only"] else []) ++
     (if has_default then ["argument-default"] else []) ++ (if var_default then ["variable-default"] else []) ++
     (if null_var then ["null-variable"] else []) ++
+    (if existsb (fun p => negb (existsb (fun d => bytes_eqb (fst p) (vd_name d)) defs)) raw then ["undeclared-variable-value"] else []) ++
+    (if existsb (fun d => negb (type_known E (vd_type d))) defs then ["variable-of-unknown-or-output-type"] else []) ++
     (match o_static o, ref with
      | VReject, Some _ => ["static-reject-reference-accepts"]
      | _, _ => []
@@ -458,6 +474,13 @@ Definition check (c : sexp) : sexp :=
                 map_opt (dec_named dec_lit) ars, map_opt (dec_named dec_jval) vs, map_opt dec_dt_entry ts, dec_observed obs with
           | Some E, Some argdefs, Some defs, Some args, Some raw, Some T, Some o =>
               let site_field := String.eqb site "field" in
+              (* whether the field guarded by the directive runs: @flt always lets it through, the
+                 built-in @include / @skip (schema.IncludeDirective / SkipDirective) decide on "if" *)
+              let if_value := fun m : list (name * gval) => match aget [105; 102]%N m with Some (GBool b) => b | _ => true end in
+              let ran_of := fun m : list (name * gval) =>
+                              if String.eqb site "include" then if_value m
+                              else if String.eqb site "skip" then negb (if_value m)
+                              else negb site_field in
               let strings := flat_map (fun a => lit_strings (snd a)) args
                              ++ flat_map (fun d => match vd_default d with Some l => lit_strings l | None => [] end) defs
                              ++ flat_map (fun p => jval_strings (snd p)) raw in
@@ -488,9 +511,9 @@ Definition check (c : sexp) : sexp :=
                     match oracle_cost E argdefs args raw o with
                     | Some v => v
                     | None =>
-                        match compare site_field o st vv am with
+                        match compare site_field o ran_of st vv am with
                         | Some v => v
-                        | None => v_ok (classes site_field argdefs defs args raw o st vv am ref_am)
+                        | None => v_ok (classes E T site_field argdefs defs args raw o (String.eqb site "include" || String.eqb site "skip") st vv am ref_am)
                         end
                     end
                 end
